@@ -771,8 +771,8 @@ impl World for TemplateExport {
 
 pub fn run(tier: Tier, seed: u64, known: &KnownFindings) -> CheckReport {
     let mk = |batch: &'static str, runs: u64| BatchConfig { check_id: "C15", batch, base_seed: seed, tier, runs, threads: threads(), known, samples: 1 };
-    let b1 = run_batch(&LogContent, &mk("log-content", tier.pick(100_000, 2_000_000)));
-    let b2 = run_batch(&ExportFaults, &mk("export-faults", tier.pick(5_000, 120_000)));
+    let b1 = run_batch(&LogContent, &mk("log-content", tier.pick(60_000, 2_000_000)));
+    let b2 = run_batch(&ExportFaults, &mk("export-faults", tier.pick(3_000, 120_000)));
     let b3 = run_batch(&DevFull, &mk("dev-full", tier.pick(200, 3_000)));
     let b4 = run_batch(&ConfigExport, &mk("config-export-trees", tier.pick(40_000, 600_000)));
     let b5 = run_batch(&TemplateExport, &mk("config-export-templates", tier.pick(40_000, 600_000)));
